@@ -326,6 +326,35 @@ def b_check(model):
             out.append(("second_run_reports_modified", None))
     except Exception as e:  # noqa: BLE001
         out.append(("second_run_raises", f"{type(e).__name__}: {e}"[:120]))
+    if out:
+        return out
+    # one pass object used again after the model was edited: clashes re-introduced between two runs of the SAME
+    # object (every value in turn takes the name of the next value of its graph; a node takes its neighbour's name)
+    pass_obj = naming.NameFixPass()
+    try:
+        pass_obj(model)
+        for g, _ in _scopes(model):
+            vals = [v for v in _graph_values(g) if not v.is_initializer()]
+            for a, b in zip(vals, vals[1:]):
+                a.name = b.name
+                break
+            nodes_ = list(g)
+            if len(nodes_) > 1:
+                nodes_[0].name = nodes_[1].name
+        res3 = pass_obj(model)
+    except Exception as e:  # noqa: BLE001
+        return out + [("reused_pass_object_raises", f"{type(e).__name__}: {e}"[:120])]
+    clash = False
+    for g, _ in _scopes(model):
+        names = [v.name for v in _graph_values(g)]
+        nn = [n.name for n in g]
+        if len(set(names)) != len(names) or any(not x for x in names):
+            out.append(("duplicate_value_names_after_second_use_of_the_same_pass_object", (g.name, sorted(repr(x) for x in names if names.count(x) > 1)[:3])))
+            clash = True
+        if len(set(nn)) != len(nn) or any(not x for x in nn):
+            out.append(("duplicate_node_names_after_second_use_of_the_same_pass_object", (g.name, sorted(repr(x) for x in nn if nn.count(x) > 1)[:3])))
+            clash = True
+    del res3, clash
     return out
 
 
